@@ -1,0 +1,74 @@
+//go:build verif
+
+package datascope
+
+// Machine-checked contracts for /verif (gowp). Comment-only file: it adds no code.
+
+//@ type DataScope
+//@   field Data guarded_by mu
+//@ type DataChildScope
+//@   field data guarded_by mu
+//@   field parent immutable
+//@ type DataLocker
+//@   field data owned
+//@   field unlockCB immutable
+//@   field parent immutable
+
+// ---- root scope ----
+//@ func (*DataScope).SetValue [C13]
+//@   requires ds.Data != nil
+//@   ensures has(ds.Data, key) && ds.Data[key] == v
+//@   ensures forall(r, r != ref(ds.Data) ==> mapAt(ds.Data, r, 0) == old(mapAt(ds.Data, r, 0)) && mapAt(ds.Data, r, 1) == old(mapAt(ds.Data, r, 1)) && mapAt(ds.Data, r, 2) == old(mapAt(ds.Data, r, 2)))
+//@ func (*DataScope).Value [C13]
+//@   modifies $none
+//@   ensures has(ds.Data, key) ==> value == ds.Data[key]
+//@   ensures !has(ds.Data, key) ==> value == nil
+//@ func (*DataScope).Keys [C13]
+//@   loop 1 invariant i == itercount() && len(keys) == len(ds.Data) && heldR(ds.mu)
+// -- LockData takes the write lock and hands exactly its Unlock to the locker, over the scope's own map
+//@ func (*DataScope).LockData [C13]
+//@   acquires ds.mu
+//@   at_call newDataLocker requires $0 == ds.Data && boundMethodOf($1, Unlock, ds.mu) && $2 == nil
+
+// ---- child scope: own value if present, otherwise the parent's current value ----
+//@ func (*DataChildScope).SetValue [C13]
+//@   requires scp.data != nil
+//@   ensures has(scp.data, key) && scp.data[key] == v
+//@   ensures forall(r, r != ref(scp.data) ==> mapAt(scp.data, r, 0) == old(mapAt(scp.data, r, 0)) && mapAt(scp.data, r, 1) == old(mapAt(scp.data, r, 1)) && mapAt(scp.data, r, 2) == old(mapAt(scp.data, r, 2)))
+//@   at_call DataScope.* requires false
+//@ func (*DataChildScope).Value [C13]
+//@   requires scp.parent != nil
+//@   trace DataScope.Value as PARENT bind pv
+//@   at_call DataScope.Value requires $0 == key
+//@   modifies $none
+//@   ensures old(has(scp.data, key)) ==> value == old(scp.data[key])
+//@   ensures !old(has(scp.data, key)) ==> value == pv
+//@   trace_ensures old(has(scp.data, key)) : ^$
+//@   trace_ensures !old(has(scp.data, key)) : ^PARENT $
+//@ func (*DataChildScope).Keys [C13]
+//@   loop 1 invariant i == itercount() && len(keys) == len(scp.data) && heldR(scp.mu)
+//@ func (*DataChildScope).LockData [C13]
+//@   acquires scp.mu
+//@   at_call newDataLocker requires $0 == scp.data && boundMethodOf($1, Unlock, scp.mu) && $2 == scp.parent
+
+// ---- locker: works on the aliased map; Commit calls the stored unlock exactly once ----
+//@ func newDataLocker [C13]
+//@   ensures typeis(locker, "*DataLocker") && as(locker, "*DataLocker").data == data && as(locker, "*DataLocker").parent == parent && as(locker, "*DataLocker").unlockCB == unlockCB
+//@ func (*DataLocker).SetValue [C13]
+//@   requires locker.data != nil
+//@   ensures has(locker.data, key) && locker.data[key] == v
+//@ func (*DataLocker).Value [C13]
+//@   trace DataScope.Value as PARENT bind pv
+//@   modifies $none
+//@   ensures old(has(locker.data, key)) ==> value == old(locker.data[key])
+//@   ensures !old(has(locker.data, key)) && locker.parent != nil ==> value == pv
+//@   ensures !old(has(locker.data, key)) && locker.parent == nil ==> value == nil
+//@ func (*DataLocker).Commit [C13]
+//@   requires locker.unlockCB != nil
+//@   trace dynamic.* as UNLOCKCB
+//@   at_call dynamic.* requires ref($fn) == ref(old(locker.unlockCB))
+//@   trace_ensures true : ^UNLOCKCB $
+
+// interface contract of a data scope's Value (each implementation above proves `modifies $none`)
+//@ iface github.com/goatcms/goatcore/app.DataScope.Value(self, key) (value)
+//@   modifies $none
